@@ -233,6 +233,30 @@ def N(t):
     return tstr(t)
 
 
+def canon_cmp_str(s):
+    """Canonical orientation of a printed comparison `(A op B)`: `>`/`>=` are rewritten as `<`/`<=` with swapped operands and
+    the operands of `==`/`!=` are sorted, so that `a > b` and `b < a` compare equal. Other strings are returned unchanged."""
+    if not (s.startswith('(') and s.endswith(')')):
+        return s
+    depth = 0
+    for i, ch in enumerate(s):
+        if ch in '([{':
+            depth += 1
+        elif ch in ')]}':
+            depth -= 1
+        elif depth == 1 and ch == ' ':
+            for op in (' <= ', ' >= ', ' == ', ' != ', ' < ', ' > '):
+                if s.startswith(op, i):
+                    a, b = s[1:i], s[i + len(op):-1]
+                    o = op.strip()
+                    if o in ('>', '>='):
+                        a, b, o = b, a, {'>': '<', '>=': '<='}[o]
+                    elif o in ('==', '!=') and b < a:
+                        a, b = b, a
+                    return '(%s %s %s)' % (a, o, b)
+    return s
+
+
 def flag_locals(body):
     """User-declared bool locals that are assigned the constant `false` somewhere (mutable validity flags), found by
     type and use rather than by name: {local index: name}."""
@@ -240,7 +264,10 @@ def flag_locals(body):
     for i, l in enumerate(body.locals):
         if not (l.get('user') and l.get('name') and l['ty'] == 'bool'):
             continue
-        vals = [written_value(body, s) for s in body.assigns(lambda pl, i=i: not pl['p'] and pl['l'] == i) if s.kind == 'assign']
+        sites = [s for s in body.assigns(lambda pl, i=i: not pl['p'] and pl['l'] == i)]
+        if any(s.data.get('exp') for s in sites):
+            continue        # a variable of a macro expansion (e.g. tracing's `enabled`), not one the function's author wrote
+        vals = [written_value(body, s) for s in sites if s.kind == 'assign']
         if '0' in vals:
             out[i] = l['name']
     return out
